@@ -132,6 +132,18 @@ func (g *constGen) floatExpr(d int) string {
 		}
 		return g.pick("fa", constFloatAtoms)
 	}
+	if g.n("mixedminmax", 0, 9) == 0 {
+		// min/max of constants of different kinds is a constant of the "largest" kind
+		g.feats["min-max-mixed-kinds"]++
+		args := []string{g.intExpr(d - 1), g.floatExpr(d - 1)}
+		if g.n("mm3", 0, 1) == 0 {
+			args = append(args, g.pick("mm3a", []string{"'a'", "1", "2.5", "kf", "ku"}))
+		}
+		if g.n("mmswap", 0, 1) == 0 {
+			args[0], args[1] = args[1], args[0]
+		}
+		return g.pick("mm", []string{"min", "max"}) + "(" + strings.Join(args, ", ") + ")"
+	}
 	switch g.n("fform", 0, 6) {
 	case 0, 1, 2:
 		g.feats["float-arith"]++
